@@ -51,7 +51,7 @@ type profile struct {
 var baseWeights = weights{
 	"create": 14, "remove": 8, "exchange": 16, "values": 12, "relation": 8, "batch": 8,
 	"cache": 3, "query": 8, "qall": 6, "reset": 1, "dumpload": 1, "resource": 2, "listener": 1,
-	"observe": 8, "bcreate": 5,
+	"observe": 8, "bcreate": 5, "latereg": 1,
 }
 
 func mix(over weights) weights {
@@ -349,7 +349,7 @@ func (g *Gen) setup() {
 	reg := func(kind string, used bool) {
 		out := g.do("reg " + kind)
 		if len(out) > 0 && strings.HasPrefix(out[0], "= ok ") {
-			id, _ := strconv.Atoi(out[0][5:])
+			id, _ := strconv.Atoi(strings.Fields(out[0])[2])
 			if !used {
 				return
 			}
@@ -469,6 +469,8 @@ func (g *Gen) step() {
 		g.genListener()
 	case "observe":
 		g.genObserve()
+	case "latereg":
+		g.lateReg(1 + g.rng.intn(2))
 	}
 }
 
@@ -763,7 +765,26 @@ func (g *Gen) genRelation(faulty bool) {
 			}
 			f := pick(g.rng, []string{"A " + idsStr([]int{r}), "A " + idsStr(comps), "R A " + idsStr([]int{r}) + " E" + out[0][5:]})
 			co := g.do("creg " + f)
+			nid := -1
+			if g.rng.chance(40) && len(g.openQueries()) == 0 {
+				before := len(g.r.comps)
+				n := 16 - before%16 + 1
+				for i := 0; i < n && len(g.r.comps) < ecs.MaskTotalBits; i++ {
+					ro := g.do("reg " + pick(g.rng, []string{"b8", "b4", "b2"}))
+					if len(ro) > 0 && strings.HasPrefix(ro[0], "= ok ") {
+						nid, _ = strconv.Atoi(strings.Fields(ro[0])[2])
+						g.plain = append(g.plain, nid)
+					}
+				}
+			}
+			h0 := len(g.r.handles)
 			g.do(fmt.Sprintf("bld I %s R %d batch %d T %s", idsStr(comps), r, 1+g.rng.intn(3), g.targetRef("")))
+			if nid >= 0 {
+				for e := h0; e < len(g.r.handles); e++ {
+					g.do(fmt.Sprintf("has e%d %d", e, nid))
+					g.do(fmt.Sprintf("get e%d %d", e, nid))
+				}
+			}
 			g.do("qall " + f)
 			if len(co) > 0 && strings.HasPrefix(co[0], "= ok c") {
 				g.do("qall C " + co[0][6:])
@@ -983,12 +1004,27 @@ func (g *Gen) genQuery(faulty bool) {
 		default:
 			g.do(fmt.Sprintf("qw %d %d %d", k, c, g.val()))
 		}
-	case x < 97:
+	case x < 96:
 		g.do(fmt.Sprintf("qx %d", k))
+	case x < 98:
+		// a registration rejected under lock must leave no trace: the next type registered
+		// after unlocking gets the same id and must not inherit anything
+		g.do("reg " + pick(g.rng, []string{"rel", "relp", "rel", "b8"}))
+		for _, q := range g.openQueries() {
+			g.do(fmt.Sprintf("qx %d", q))
+		}
+		out := g.do("reg " + pick(g.rng, []string{"b8", "b4", "z"}))
+		if len(out) > 0 && strings.HasPrefix(out[0], "= ok ") {
+			id, _ := strconv.Atoi(strings.Fields(out[0])[2])
+			g.plain = append(g.plain, id)
+			if len(g.rels) > 0 {
+				g.do(fmt.Sprintf("new 2 %d %d", id, g.rels[0]))
+			}
+		}
 	default:
 		// structural operation under lock: must panic `locked` and change nothing
 		g.do("shape pifnc")
-		switch g.rng.intn(6) {
+		switch g.rng.intn(8) {
 		case 0:
 			g.do("new " + idsStr(g.compSet(2)))
 		case 1:
@@ -999,10 +1035,133 @@ func (g *Gen) genQuery(faulty bool) {
 			g.genBatch(false)
 		case 4:
 			g.do("reset")
+		case 5:
+			g.do("reg " + pick(g.rng, []string{"b8", "rel", "relp", "z"}))
+		case 6:
+			g.do("resreg")
+			if n := len(g.r.resIDs); n > 0 {
+				g.do(fmt.Sprintf("resadd %d %d", n-1, 1+g.rng.intn(100)))
+				g.do(fmt.Sprintf("resget %d", n-1))
+			}
 		default:
 			g.do("reg b8")
 		}
 		g.do("shape pifnc")
+		if g.rng.chance(50) {
+			// after unlocking, the next registration must not inherit anything from a rejected one
+			for _, k := range g.openQueries() {
+				g.do(fmt.Sprintf("qx %d", k))
+			}
+			g.lateReg(1)
+		}
+	}
+}
+
+// lateReg registers n more component types while tables exist (also crossing a layout-chunk
+// boundary of 16 ids), then uses the new ids on existing, new and reused tables.
+func (g *Gen) lateReg(n int) {
+	if len(g.openQueries()) > 0 {
+		return
+	}
+	if g.rng.chance(50) {
+		// go up to and past the next multiple of 16
+		n = 16 - len(g.r.comps)%16 + 1 + g.rng.intn(2)
+	}
+	newIDs := []int{}
+	for i := 0; i < n && len(g.r.comps) < ecs.MaskTotalBits; i++ {
+		out := g.do("reg " + pick(g.rng, []string{"b8", "b4", "z", "b16"}))
+		if len(out) > 0 && strings.HasPrefix(out[0], "= ok ") {
+			id, _ := strconv.Atoi(strings.Fields(out[0])[2])
+			newIDs = append(newIDs, id)
+		}
+	}
+	if len(newIDs) == 0 {
+		return
+	}
+	g.plain = append(g.plain, newIDs...)
+	nid := newIDs[len(newIDs)-1]
+	for _, i := range g.aliveIdx() {
+		if g.rng.chance(40) {
+			g.do(fmt.Sprintf("has e%d %d", i, nid))
+			g.do(fmt.Sprintf("get e%d %d", i, nid))
+		}
+	}
+	// reuse retired relation tables with a new target and look at the new ids there
+	if len(g.rels) > 0 {
+		r := pick(g.rng, g.rels)
+		for k := 0; k < 3; k++ {
+			comps := append(g.subset(g.plain[:len(g.plain)-len(newIDs)], 2), r)
+			out := g.do(fmt.Sprintf("bld I %s R %d new T %s", idsStr(comps), r, g.targetRef("")))
+			if len(out) > 0 && strings.HasPrefix(out[0], "= ok ") {
+				e := len(g.r.handles) - 1
+				g.do(fmt.Sprintf("has e%d %d", e, nid))
+				g.do(fmt.Sprintf("get e%d %d", e, nid))
+				g.do(fmt.Sprintf("add e%d 1 %d", e, nid))
+				g.do(fmt.Sprintf("get e%d %d", e, nid))
+			}
+		}
+	}
+	g.do("snapshot")
+}
+
+// finale: dump, then load the same dump into fresh worlds (ids above 64, recycled high ids,
+// the same dump loaded twice) and continue there.
+func (g *Gen) freshLoadFinale() {
+	for _, k := range g.openQueries() {
+		g.do(fmt.Sprintf("qx %d", k))
+	}
+	inc := pick(g.rng, []int{16, 16, 4, 128, 7})
+	g.do(fmt.Sprintf("world %d 0 %d", inc, ecs.MaskTotalBits))
+	n := pick(g.rng, []int{15, 15, 70, 90, 31, 140})
+	if inc == 16 && g.rng.chance(60) {
+		n = 15 // the dump's slice capacity then equals the receiving world's rounded capacity
+	}
+	g.do(fmt.Sprintf("bld I 0 - batch %d -", n))
+	removed := 0
+	for i := 0; i < 6 && n > 15; i++ {
+		g.do(fmt.Sprintf("rm e%d", n-1-g.rng.intn(n/3)))
+		removed++
+	}
+	out := g.do("dump")
+	if len(out) == 0 || !strings.HasPrefix(out[0], "= ok d") {
+		return
+	}
+	k := strings.Fields(out[0])[2][1:]
+	kk, _ := strconv.Atoi(k)
+	// value copies: the generator must not look through the dump object the world may alias
+	d := ecs.EntityDump{Entities: append([]ecs.Entity{}, g.r.dumps[kk].Entities...), Alive: append([]uint32{}, g.r.dumps[kk].Alive...)}
+	for round := 0; round < 2; round++ {
+		g.do(fmt.Sprintf("world+ %d 0 %d", pick(g.rng, []int{inc, inc, inc, 4, 128}), ecs.MaskTotalBits))
+		g.do("load " + k)
+		g.do("shape pif")
+		// touch a high id first: remove a high alive entity / recycle a high free id
+		alive := map[uint32]bool{}
+		for _, a := range d.Alive {
+			alive[a] = true
+		}
+		if round == 1 {
+			// second world loaded from the same dump: everything alive in the dump is alive here,
+			// whatever happened in the first one
+			for i := len(d.Entities) - 1; i > 0 && i > len(d.Entities)-8; i-- {
+				g.do(fmt.Sprintf("alive E%d:%d", i, d.Entities[i].Generation()))
+			}
+		}
+		for i := len(d.Entities) - 1; i > 0 && i > len(d.Entities)-8; i-- {
+			e := d.Entities[i]
+			if alive[uint32(i)] && g.rng.chance(50) {
+				g.do(fmt.Sprintf("rm E%d:%d", i, e.Generation()))
+			}
+		}
+		g.do("new 0")
+		g.do("new 0")
+		for i := 1; i < len(d.Entities); i++ {
+			if alive[uint32(i)] && g.rng.chance(30) {
+				g.do(fmt.Sprintf("alive E%d:%d", i, d.Entities[i].Generation()))
+			}
+		}
+		g.do("stats")
+		g.do("dump")
+		g.do("shape pif")
 	}
 }
 
@@ -1046,6 +1205,19 @@ func (g *Gen) genDumpLoad(faulty bool) {
 		g.do("qall A 0")
 		g.do("new 0")
 		g.do("new 0")
+		if g.rng.chance(40) {
+			// roll back: reset and load the same dump again
+			g.do("rm " + g.entRef(false))
+			g.do("reset")
+			g.do("load " + k)
+			for _, e := range g.r.dumps[kk].Entities {
+				if !e.IsZero() && g.rng.chance(50) {
+					g.do(fmt.Sprintf("alive E%d:%d", e.ID(), e.Generation()))
+				}
+			}
+			g.do("dump")
+			g.do("new 0")
+		}
 	}
 }
 
@@ -1055,6 +1227,10 @@ func (g *Gen) genResource(faulty bool) {
 		return
 	}
 	k := g.rng.intn(n)
+	if g.rng.chance(8) && n < 40 {
+		g.do("resreg")
+		return
+	}
 	switch g.rng.intn(5) {
 	case 0, 1:
 		g.do(fmt.Sprintf("resadd %d %d", k, 1+g.rng.intn(1000)))
@@ -1155,5 +1331,8 @@ func Generate(seed uint64, p profile, n int) (g *Gen) {
 	g.do("snapshot")
 	g.do("shape pifncl")
 	g.do("inv")
+	if p.name == "churn" || p.name == "reset" || (p.name == "mixed" && g.rng.chance(30)) {
+		g.freshLoadFinale()
+	}
 	return g
 }
